@@ -4,6 +4,7 @@ package ws
 
 import (
 	"bufio"
+	"sort"
 	"bytes"
 	"encoding/base64"
 	"fmt"
@@ -35,6 +36,7 @@ type hsPlan struct {
 	Piggy      []wsMessage // complete messages sent in the same bytes as the response
 	PartialCut int         // >0: the last piggy-backed frame is cut after this many bytes; the rest follows later
 	Cuts       []int       // segment boundaries inside response(+piggy) bytes
+	EndCuts    []int       // segment boundaries relative to the end of the response head (negative = inside the final CRLFCRLF or before it)
 	CloseAt    int         // >=0: the server closes after this many bytes of the response
 	Later      []wsMessage
 	Conforming bool
@@ -129,8 +131,13 @@ func serveOne(ln net.Listener, p hsPlan, out chan<- hsServerResult) {
 	if p.CloseAt >= 0 && p.CloseAt < res.respLen {
 		all = all[:p.CloseAt]
 	}
+	cuts := append([]int{}, p.Cuts...)
+	for _, e := range p.EndCuts {
+		cuts = append(cuts, res.respLen+e)
+	}
+	sort.Ints(cuts)
 	prev := 0
-	for _, cut := range p.Cuts {
+	for _, cut := range cuts {
 		if cut > prev && cut < len(all) {
 			if _, err := c.Write(all[prev:cut]); err != nil {
 				res.err = err
@@ -187,6 +194,9 @@ func genHsPlan(t *rapid.T, lbl string) hsPlan {
 				p.Cuts[j], p.Cuts[j-1] = p.Cuts[j-1], p.Cuts[j]
 			}
 		}
+	}
+	if rapid.IntRange(0, 2).Draw(t, lbl+"endseg") == 0 {
+		p.EndCuts = rapid.SliceOfNDistinct(rapid.IntRange(-6, 3), 1, 3, func(i int) int { return i }).Draw(t, lbl+"endcuts")
 	}
 	if rapid.IntRange(0, 7).Draw(t, lbl+"close") == 0 {
 		p.CloseAt = rapid.IntRange(0, 120).Draw(t, lbl+"closeAt")
@@ -278,9 +288,9 @@ func TestC18_Handshake(t *testing.T) {
 		for round := 0; round < rounds; round++ {
 			lbl := fmt.Sprintf("r%d.", round)
 			p := genHsPlan(rt, lbl)
-			if segKnown && len(p.Cuts) > 0 {
+			if segKnown && (len(p.Cuts) > 0 || len(p.EndCuts) > 0) {
 				excluded++
-				p.Cuts = nil
+				p.Cuts, p.EndCuts = nil, nil
 			}
 			async := rapid.Bool().Draw(rt, lbl+"async")
 			extraHdr := map[string]string{}
@@ -302,21 +312,37 @@ func TestC18_Handshake(t *testing.T) {
 						rt.Fatalf("AsyncHandshake callback not invoked within 6 s; plan=%+v", p)
 					}
 				}
-			} else {
-				herr = s.Handshake(addr, hdrs...)
 			}
 			var sr hsServerResult
-			select {
-			case sr = <-out:
-			case <-time.After(6 * time.Second):
-				rt.Fatalf("INFRA: server goroutine stuck; plan=%+v", p)
+			if !async {
+				hdone := make(chan error, 1)
+				go func() { hdone <- s.Handshake(addr, hdrs...) }()
+				select {
+				case sr = <-out:
+				case <-time.After(6 * time.Second):
+					rt.Fatalf("INFRA: server goroutine stuck; plan=%+v", p)
+				}
+				select {
+				case herr = <-hdone:
+				case <-time.After(3 * time.Second):
+					if sr.conn != nil {
+						_ = sr.conn.Close()
+					}
+					rt.Fatalf("Handshake neither succeeded nor failed within 3 s after the server had sent its complete response (%d bytes head, cuts %v, end cuts %v): bytes of the response are not being recognised; plan=%+v", sr.respLen, p.Cuts, p.EndCuts, p)
+				}
+			} else {
+				select {
+				case sr = <-out:
+				case <-time.After(6 * time.Second):
+					rt.Fatalf("INFRA: server goroutine stuck; plan=%+v", p)
+				}
 			}
 			closeServer := func() {
 				if sr.conn != nil {
 					_ = sr.conn.Close()
 				}
 			}
-			desc = append(desc, fmt.Sprintf("{%s up=%q/%s acc=%s/%s sep=%q order=%v extra=%v piggy=%d partial=%d cuts=%v closeAt=%d async=%v}", p.Status, p.Upgrade, p.UpName, p.Accept, p.AcName, p.Sep, p.Order, p.Extra, len(p.Piggy), p.PartialCut, p.Cuts, p.CloseAt, async))
+			desc = append(desc, fmt.Sprintf("{%s up=%q/%s acc=%s/%s sep=%q order=%v extra=%v piggy=%d partial=%d cuts=%v endcuts=%v closeAt=%d async=%v}", p.Status, p.Upgrade, p.UpName, p.Accept, p.AcName, p.Sep, p.Order, p.Extra, len(p.Piggy), p.PartialCut, p.Cuts, p.EndCuts, p.CloseAt, async))
 			if sr.request == nil {
 				closeServer()
 				rt.Fatalf("INFRA: the server saw no request: %v", sr.err)
@@ -330,7 +356,7 @@ func TestC18_Handshake(t *testing.T) {
 				closeServer()
 				rt.Fatalf("handshake #%d: conforming=%v (status %q, Upgrade %q, accept %s, closeAt %d of %d) but Handshake returned %v; plan=%s", round, wantOK, p.Status, p.Upgrade, p.Accept, p.CloseAt, sr.respLen, herr, desc[len(desc)-1])
 			}
-			varied := p.UpName != "Upgrade" || p.AcName != "Sec-WebSocket-Accept" || strings.Join(p.Sep, "") != strings.Repeat(" ", len(p.Sep)) || len(p.Cuts) > 0
+			varied := p.UpName != "Upgrade" || p.AcName != "Sec-WebSocket-Accept" || strings.Join(p.Sep, "") != strings.Repeat(" ", len(p.Sep)) || len(p.Cuts) > 0 || len(p.EndCuts) > 0
 			if (wantOK && varied && len(p.Piggy) > 0) || round > 0 {
 				nt = true
 			}
